@@ -146,6 +146,9 @@ def gen_case(rng, ak=None, vk=None, form=None, iks=None, cast=None, spelling=Non
     else:
         c = (rng.random() < 0.5) if cast is None else cast
         inp = rng.random() < 0.5
+    if c and ak == 'i' and rng.random() < 0.3:
+        # narrow integer data: with cast=True an assigned integer that does not fit widens the array instead of wrapping around
+        sp["values"] = (sp["values"] % 100).astype(rng.choice(['int8', 'int16']))
     return {"a": sp, "ak": ak, "vk": vk, "form": form, "spelling": spelling, "idx": idx, "ikinds": ikinds, "rhs": rhs, "cast": c, "inplace": inp,
             "single_dim": single_dim, "axis_by_pos": rng.random() < 0.5, "negpos": rng.random() < 0.4}
 
@@ -155,6 +158,9 @@ def cast_dtype(adt, rhs):
     vk = np.asarray(rhs).dtype.kind
     ak = adt.kind
     if ak == vk or ak == 'O':
+        r_ = np.asarray(rhs)
+        if ak in 'iu' and r_.dtype.itemsize > adt.itemsize and not np.array_equal(r_.astype(adt), r_):
+            return r_.dtype         # "widened as needed so that no assigned value is truncated": integers that do not fit
         return adt
     if ak == 'f' and vk in 'iu':
         return adt
